@@ -109,7 +109,7 @@ structure BaseTraj (α : Type) where
   vel : Vec α
   mach : α
 
-structure Filter (α : Type) where
+structure TFilter (α : Type) where
   filter : Flags
   currentFlag : Flags
   seenZero : Flags
@@ -124,11 +124,11 @@ structure Filter (α : Type) where
   prevVMach : α
   lookAngle : α
 
-def Filter.init (flags : Flags) (rangeStep : α) (pos vel : Vec α) (timeStep : α) : Filter α :=
+def TFilter.init (flags : Flags) (rangeStep : α) (pos vel : Vec α) (timeStep : α) : TFilter α :=
   ⟨flags, fNONE, fNONE, timeStep, rangeStep, 0.0, 0.0, 0.0, 0.0, pos, vel, 0.0, 0.0⟩
 
 /-- `setup_seen_zero(height, barrel_elevation, look_angle)` -/
-def Filter.setupSeenZero (f : Filter α) (height barrelElevation lookAngle : α) : Filter α :=
+def TFilter.setupSeenZero (f : TFilter α) (height barrelElevation lookAngle : α) : TFilter α :=
   let seen :=
     if 0.0 ≤ height then { f.seenZero with zeroUp := true }
     else if height < 0.0 ∧ barrelElevation < lookAngle then { f.seenZero with zeroDown := true }
@@ -144,7 +144,7 @@ def lerp (a b ratio : α) : α := a + (b - a) * ratio
 def Vec.lerp (a b : Vec α) (ratio : α) : Vec α := a.add ((b.sub a).smul ratio)
 
 /-- `check_zero_crossing` -/
-def Filter.checkZero (f : Filter α) (pos : Vec α) : Filter α :=
+def TFilter.checkZero (f : TFilter α) (pos : Vec α) : TFilter α :=
   if 0.0 < pos.x then
     let ref := pos.x * Fn.tan f.lookAngle
     if !f.seenZero.zeroUp then
@@ -159,15 +159,15 @@ def Filter.checkZero (f : Filter α) (pos : Vec α) : Filter α :=
   else f
 
 /-- `check_mach_crossing(velocity, mach)` -/
-def Filter.checkMach (f : Filter α) (velocity mach : α) : Filter α :=
+def TFilter.checkMach (f : TFilter α) (velocity mach : α) : TFilter α :=
   let cur := velocity / mach
   let f' := if 1.0 < f.prevVMach ∧ cur ≤ 1.0 then { f with currentFlag := { f.currentFlag with mach := true } } else f
   { f' with prevVMach := cur }
 
 /-- `should_record(position, velocity, mach, time)`; `skipFuel` bounds the skip loop -/
-def Filter.shouldRecord (f : Filter α) (skipFuel : Nat) (pos vel : Vec α) (mach time : α) :
-    Filter α × Option (BaseTraj α) :=
-  let (f1, data) : Filter α × Option (BaseTraj α) :=
+def TFilter.shouldRecord (f : TFilter α) (skipFuel : Nat) (pos vel : Vec α) (mach time : α) :
+    TFilter α × Option (BaseTraj α) :=
+  let (f1, data) : TFilter α × Option (BaseTraj α) :=
     if 0.0 < f.rangeStep ∧ f.nextRecordDistance ≤ pos.x then
       let nrd := skipRecords f.rangeStep pos.x skipFuel f.nextRecordDistance
       let data :=
@@ -216,7 +216,7 @@ structure Run (α : Type) where
 structure LoopSt (α : Type) where
   s : St α
   ws : WindSock α
-  flt : Filter α
+  flt : TFilter α
   rows : List (Row α)   -- newest first
   drag : α
   mach : α
@@ -264,7 +264,7 @@ def physIter (r : Run α) : Nat → St α → WindSock α → Option (St α × W
 
 /-- what the recorder does in one iteration: the filter after `should_record` and the row (if any) -/
 def recordStep (r : Run α) (filterFlags : Flags) (skipFuel : Nat) (l : LoopSt α) (density mach : α) :
-    Except (Err α) (Filter α × List (Row α)) :=
+    Except (Err α) (TFilter α × List (Row α)) :=
   let flt := { l.flt with currentFlag := fNONE }
   if !filterFlags.isNone then
     let (flt', data) := flt.shouldRecord skipFuel l.s.pos l.s.vel mach l.s.time
@@ -308,7 +308,7 @@ def integrate (r : Run α) (barrelElevation maxRange recordStep : α) (filterFla
     (fuel skipFuel : Nat) : Except (Err α) (List (Row α)) :=
   let s0 := initialState r barrelElevation
   let minStep := minOf r.cfg.calcStep recordStep
-  let flt := (Filter.init filterFlags recordStep s0.pos s0.vel timeStep).setupSeenZero s0.pos.y barrelElevation
+  let flt := (TFilter.init filterFlags recordStep s0.pos s0.vel timeStep).setupSeenZero s0.pos.y barrelElevation
               r.proj.lookAngle
   let l0 : LoopSt α := ⟨s0, WindSock.init r.winds r.maxWindDist, flt, [], 0.0, 0.0, 0.0, r.muzzleVelocity⟩
   match loop r filterFlags skipFuel (maxRange + minStep) fuel l0 with
